@@ -236,7 +236,8 @@ def install():
     import saml2_tophat.sigver as sigver
     import saml2_tophat.time_util as tu
     sigver.Popen = SeamPopen
-    warnings.simplefilter('ignore')      # some library modules reset the filter on import
+    warnings.simplefilter('ignore')      # some library modules reset the filter on import ...
+    warnings.simplefilter = lambda *a, **k: None      # ... and later ones must not either
     # self-test: the library's clock readers must see the virtual clock
     Clock.set(BASE)
     want = _real_strftime('%Y-%m-%dT%H:%M:%SZ', _real_gmtime(BASE))
